@@ -33,3 +33,28 @@ Print Assumptions C10_rpms_reach_arch_ok.
 Theorem C10_rpms_03_arch_ok : forall manifest m, deser_rpms_0_3 manifest = Ok m -> keys2_ok m.
 Proof. exact rpms_03_arch_ok. Qed.
 Print Assumptions C10_rpms_03_arch_ok.
+
+(* the positive clause. Images: a source image of a <= 1.1 document is filed under EACH non-src architecture its variant lists
+   (and nothing already filed is lost) *)
+From PM Require Import Proofs.RefileProofs.
+Theorem C10_src_image_refiled_under_each_binary_arch :
+  forall vt doc_arches c v img c',
+  vt_leb vt (1, 1) = true -> add_loaded vt doc_arches c v s_src img = Ok c' ->
+  (forall a, In a doc_arches -> a <> s_src -> in_cell c' v a (fst img)) /\
+  (forall v1 a1 i, in_cell c v1 a1 i -> in_cell c' v1 a1 i).
+Proof. exact add_loaded_refiles. Qed.
+Print Assumptions C10_src_image_refiled_under_each_binary_arch.
+
+(* Rpms, format 0.3: a source package listed in the variant's 'src' table is filed, under its canonical name, under each binary
+   architecture that lists at least one package built from it *)
+Theorem C10_rpms_03_source_refiled :
+  forall man m, deser_rpms_0_3 man = Ok m ->
+  forall variants v vd arches a ad srpms sr rd srctab sd rpms,
+    items man = Ok variants -> In (v, vd) variants ->
+    items vd = Ok arches -> In (a, ad) arches -> a <> s_src ->
+    items ad = Ok srpms -> In (sr, rd) srpms ->
+    dget_default vd s_src (PDict []) = Ok srctab -> dget_default srctab sr PNone = Ok sd -> sd <> PNone ->
+    items rd = Ok rpms -> rpms <> [] ->
+    src_filed sr v a m.
+Proof. exact rpms_03_refiles. Qed.
+Print Assumptions C10_rpms_03_source_refiled.
